@@ -154,6 +154,15 @@ func runNextFrameState(data []byte, chunk int, st ws.State) decRes {
 	return decRes{h, err, s.Off, s.MaxEnd, s.Reads}
 }
 
+// runNextFrameMax: the streaming reader's decoder with a frame-size limit configured. The limit
+// is about the length the header carries, whatever form carries it.
+func runNextFrameMax(data []byte, max int64) decRes {
+	s := env.NewSrc(data)
+	r := &wsutil.Reader{Source: s, State: ws.StateServerSide, SkipHeaderCheck: true, MaxFrameSize: max}
+	h, err := r.NextFrame()
+	return decRes{h, err, s.Off, s.MaxEnd, s.Reads}
+}
+
 func main() {
 	explore.Main("C01", func(r *explore.Run) {
 		L := lengths(r.Thorough())
@@ -252,6 +261,23 @@ func main() {
 								k := runNextFrameState(data, 0, st)
 								if (k.err == nil) != (b.err == nil) || (b.err == nil && (k.h != b.h || k.used != b.used || k.maxEnd > b.used)) {
 									return explore.Failf("NextFrame-depends-on-side", "state %08b: %+v/%d (reads reach %d) err=%v; state 0: %+v/%d err=%v", st, k.h, k.used, k.maxEnd, k.err, b.h, b.used, b.err)
+								}
+							}
+							for _, max := range []int64{125, 1000, 65535, 70000, 1 << 62} {
+								k := runNextFrameMax(data, max)
+								switch {
+								case b.err != nil:
+									if k.err == nil {
+										return explore.Failf("NextFrame-with-size-limit-accepts-what-it-refuses-without", "limit %d: %+v; without: %v", max, k.h, b.err)
+									}
+								case b.h.Length <= max:
+									if k.err != nil || k.h != b.h || k.used != b.used {
+										return explore.Failf("NextFrame-decodes-differently-under-a-size-limit", "limit %d: %+v/%d err=%v; without: %+v/%d", max, k.h, k.used, k.err, b.h, b.used)
+									}
+								default:
+									if k.err != wsutil.ErrFrameTooLarge {
+										return explore.Failf("NextFrame-size-limit-not-applied", "limit %d, header carries %d: err=%v", max, b.h.Length, k.err)
+									}
 								}
 							}
 							for _, kind := range kinds {
